@@ -227,7 +227,9 @@ def splicable(h):
     if node.decorator_list and not all(U(d) in ("staticmethod", "classmethod") for d in node.decorator_list):
         return False
     a = node.args
-    if a.vararg or a.kwarg:
+    if a.vararg:
+        return False
+    if a.kwarg is not None and a.kwarg.arg in _assigned_names(node):
         return False
     for n in walk_own(node):
         if isinstance(n, (ast.Yield, ast.YieldFrom, ast.Await, ast.Global, ast.Nonlocal)):
@@ -374,6 +376,8 @@ def simplify(stmts, nonnull):
             st.orelse = simplify(st.orelse, nonnull)
         elif isinstance(st, (ast.For, ast.While, ast.With, ast.AsyncWith, ast.AsyncFor)):
             st.body = simplify(st.body, nonnull)
+        elif isinstance(st, ast.Assign) and len(st.targets) == 1 and isinstance(st.targets[0], ast.Name) and isinstance(st.value, ast.Name) and st.value.id == st.targets[0].id:
+            continue            # x = x  (left behind when a spliced helper's parameter and the caller's local share a name)
         out.append(st)
     # a, b = x, y  ->  a = x; b = y   (no target is read by any of the values)
     split = []
